@@ -156,6 +156,15 @@ def _decorate_namespace_function(
         snapshots = contract_checker.__postcondition_snapshots__  # type: ignore
         postconditions = contract_checker.__postconditions__  # type: ignore
 
+    # A function re-used from a base class as-is (*e.g.*, ``method = Base.method``) has been already collapsed there;
+    # collapsing it again would merge its contracts into themselves.
+    if contract_checker is not None and any(
+        icontract._checkers.find_checker(func=getattr(base, key)) is contract_checker
+        for base in bases
+        if hasattr(base, key)
+    ):
+        return
+
     # Collect the preconditions and postconditions from bases.
     #
     # Preconditions and postconditions of __init__ and __new__ of base classes are deliberately ignored
@@ -250,6 +259,22 @@ def _decorate_namespace_property(
         func = cast(Callable[..., Any], func)
 
         if func is None:
+            continue
+
+        # An accessor re-used from the property of a base class (*e.g.*, ``@Base.x.setter``) has been already
+        # collapsed there; collapsing it again would merge its contracts into themselves.
+        if any(
+            isinstance(getattr(base, key, None), property)
+            and any(
+                func is base_func
+                for base_func in (
+                    getattr(base, key).fget,
+                    getattr(base, key).fset,
+                    getattr(base, key).fdel,
+                )
+            )
+            for base in bases
+        ):
             continue
 
         # Collect the preconditions and postconditions from bases
